@@ -76,7 +76,11 @@ func emitSkeleton(pkgName string, fset *token.FileSet, files []*ast.File, info *
 			var buf bytes.Buffer
 			(&printer.Config{Mode: printer.RawFormat}).Fprint(&buf, fset, fd)
 			text := strings.Join(strings.Fields(buf.String()), " ")
-			fmt.Printf("SKEL\t%s\t%s\t%s\n", pkgName, fname, text)
+			file := fset.Position(fd.Pos()).Filename
+			if i := strings.LastIndex(file, "/"); i >= 0 {
+				file = file[i+1:]
+			}
+			fmt.Printf("SKEL\t%s\t%s:%s\t%s\n", pkgName, file, fname, text)
 		}
 	}
 }
